@@ -427,7 +427,10 @@ func (w *World) checkRepoLayout(repo string, afterGC bool) {
 		if sz, ok := blobFiles[e.Digest]; !ok {
 			mr := w.m.repo(repo)
 			if mr.blobDeleted[e.Digest] {
-				w.x.viol([]string{"C10"}, "layout.entry-without-blob", "after blob DELETE of a manifest", fmt.Sprintf("%s index.json lists %s whose blob was deleted through the blob endpoint", repo, e.Digest))
+				// the client removed the content of a manifest through the blob endpoint: the entry dangles until the next
+				// collection. The image-layout specification allows referenced blobs to be missing from blobs/, so the
+				// directory is still a valid layout, and the API state (manifest listed, content gone) is what the client asked for.
+				w.x.out.probe("entry-dangling-after-blob-delete")
 			} else {
 				props := []string{"C10"}
 				if afterGC {
